@@ -17,6 +17,7 @@ policy), `Props/C16.lean` (metadata parsers), `Props/C18Reset.lean` and `Props/C
 * Part 6: the `Limits` ledger (C06): `held`, `LedgerStep` for every parser, `LedgerInv` along runs.
 * Part 7: the chunk-kind automaton (C10 `automaton_sound`): `K`, `proj`, `KTrans`, simulation, language facts.
 * Part 8: with `ignore_crc` the CRC function is never consulted (C11).
+* Part 9: every buffered chunk is parsed, once, with its whole body (`StInv`, C10 `every_chunk_parsed`).
 -/
 namespace Png.Framing
 open Png
@@ -87,7 +88,7 @@ theorem parseU32_crc (cfg : Cfg) (d : Dec) (t : ChunkType) (b0 b1 b2 b3 : UInt8)
       if be32 b0 b1 b2 b3 = (if d.opts.ignoreCrc then be32 b0 b1 b2 b3 else cfg.crc d.crcAcc) then
         (if t = IEND then .ok (.imageEnd, d)
          else .ok (.chunkComplete (be32 b0 b1 b2 b3) t, { d with state := some (.u32 .length []) }))
-      else if d.opts.skipAncillaryCrcFailures ∧ !isCritical t then
+      else if d.opts.skipAncillaryCrcFailures ∧ !isCritical t ∧ t ≠ acTL ∧ t ≠ fcTL ∧ t ≠ fdAT then
         .ok (.nothing, { d with state := some (.u32 .length []) })
       else .error (.format "CrcMismatch") := rfl
 
@@ -808,15 +809,17 @@ theorem afterType_IDAT (d : Dec) (len : Nat) :
       else .ok (.imageData IDAT, { d with haveIdat := true }) := by
   unfold afterType; rw [if_neg (by decide), if_pos rfl]
 
+/-- a buffered chunk: an EMPTY body is complete already and goes straight to `ParseChunkData` (it is parsed like
+    any other chunk); otherwise the body is collected first -/
 theorem afterType_other (d : Dec) {t : ChunkType} (len : Nat) (h1 : t ≠ fdAT) (h2 : t ≠ IDAT) :
-    afterType d t len = .ok (.readChunkData t, d) := by
-  unfold afterType; rw [if_neg h1, if_neg h2]
+    afterType d t len = .ok (if len = 0 then .parseChunkData t else .readChunkData t, d) := by
+  unfold afterType; rw [if_neg h1, if_neg h2]; split <;> rfl
 
 /-- everything a successful `afterType` can be -/
 theorem afterType_cases {d d' : Dec} {t : ChunkType} {len : Nat} {st : St} (h : afterType d t len = .ok (st, d')) :
     (t = fdAT ∧ d.readyFdat = true ∧ 4 ≤ len ∧ st = .u32 .seqNo [] ∧ d' = { d with haveIdat := true }) ∨
     (t = IDAT ∧ d.readyIdat = true ∧ st = .imageData IDAT ∧ d' = { d with haveIdat := true }) ∨
-    (t ≠ fdAT ∧ t ≠ IDAT ∧ st = .readChunkData t ∧ d' = d) := by
+    (t ≠ fdAT ∧ t ≠ IDAT ∧ st = (if len = 0 then .parseChunkData t else .readChunkData t) ∧ d' = d) := by
   by_cases h1 : t = fdAT
   · subst h1
     rw [afterType_fdAT] at h
@@ -1170,8 +1173,11 @@ theorem parseU32_crcInv {cfg : Cfg} {d d' : Dec} {kind : U32Kind} {b0 b1 b2 b3 :
       · simp only [hig, Bool.false_eq_true, if_false, ht]
       · simp only [hig, Bool.false_eq_true, if_false, ht]
         exact ⟨[], [], by simp, List.nil_suffix, Or.inl ⟨rfl, rfl⟩⟩
-      · simp only [hig, Bool.false_eq_true, if_false]
-        exact ⟨h2, h1, by simp⟩
+      · by_cases hl : len = 0
+        · simp only [hig, Bool.false_eq_true, if_false, hl, if_true]
+          exact ⟨h2, h1, by simp⟩
+        · simp only [hig, Bool.false_eq_true, if_false, hl]
+          exact ⟨h2, h1, by simp⟩
   | crc t =>
     rw [parseU32_crc] at h
     repeat' split at h
@@ -2117,9 +2123,9 @@ def kindOf (t : ChunkType) : DataKind := if t = IDAT then .idat else if t = fdAT
 
 /-- the chunk-kind-level state of the decoder -/
 structure K where
-  /-- a (non-empty) IHDR was parsed -/
+  /-- an IHDR was parsed -/
   infoSet : Bool
-  /-- a (non-empty) PLTE was parsed -/
+  /-- a PLTE was parsed -/
   havePlte : Bool
   haveIdat : Bool
   readyIdat : Bool
@@ -2137,7 +2143,7 @@ inductive Label
   | tau                      -- everything else: no effect on `K`
   | begin (t : ChunkType)    -- `ChunkBegin`: the chunk type `t` was accepted
   | flush (t : ChunkType)    -- `ImageDataFlushed`: the type `t` ended a data-chunk sequence (and is parsed again)
-  | parsed (t : ChunkType)   -- `parse_chunk(t)` returned `Ok` for a complete, NON-EMPTY body
+  | parsed (t : ChunkType)   -- `parse_chunk(t)` returned `Ok` for the complete body (of any length, 0 included)
 deriving DecidableEq, Repr
 
 /-- **The reference automaton.**  It encodes only the ordering rules C10 lists: IHDR first and once, at most
@@ -2488,7 +2494,7 @@ theorem KRun.ihdr_once {k k' : K} {l2 : List Label} (h : KRun k (.parsed IHDR ::
       · exact ih (ht2.infoSet_mono h1) hmem
 
 /-- **IHDR first**: from a state without `info`, the first accepted chunk type is IHDR, and any other chunk type
-    is accepted only after a (non-empty) IHDR was parsed -/
+    is accepted only after an IHDR was parsed -/
 theorem KRun.ihdr_first {k k' : K} {l1 : List Label} {t : ChunkType} (h : KRun k (l1 ++ [.begin t]) k')
     (h0 : k.infoSet = false) : t = IHDR ∨ Label.parsed IHDR ∈ l1 := by
   induction l1 generalizing k with
@@ -2717,6 +2723,401 @@ theorem run_crcfn (cfg : Cfg) (c' : Bytes → Nat) : ∀ (f : Nat) (d : Dec) (bu
         · rename_i n ev d' hn
           have := (nextState_stepFrame hn).opts
           rw [ih d' _ (by rw [this]; exact hig)]
+
+
+/-! ## Part 9: every buffered chunk is parsed, once, with its whole body (C10 `every_chunk_parsed`) -/
+
+/-- which chunk kinds the body-handling states hold; `ReadChunkData` is never entered with nothing remaining
+    (since f31d047 an empty chunk goes straight to `ParseChunkData`) -/
+def StInv (d : Dec) : Prop :=
+  match d.state with
+  | some (.readChunkData t) => d.remaining ≠ 0 ∧ t ≠ IDAT ∧ t ≠ fdAT
+  | some (.parseChunkData t) => t ≠ IDAT ∧ t ≠ fdAT
+  | some (.imageData t) => t = IDAT ∨ t = fdAT
+  | _ => True
+
+theorem stInv_new (opts : Options) : StInv (Dec.new opts) := trivial
+
+theorem parseU32_stInv {cfg : Cfg} {d d' : Dec} {kind : U32Kind} {b0 b1 b2 b3 : UInt8} {ev : Ev}
+    (hd : d.state = none) (h : parseU32 cfg d kind b0 b1 b2 b3 = .ok (ev, d')) :
+    StInv d' ∧ ∀ t acc, d'.state ≠ some (.u32 (.crc t) acc) := by
+  cases kind with
+  | sig1 => rw [parseU32_sig1] at h; split at h <;> cases h; exact ⟨trivial, by simp⟩
+  | sig2 => rw [parseU32_sig2] at h; split at h <;> cases h; exact ⟨trivial, by simp⟩
+  | length => rw [parseU32_length] at h; cases h; exact ⟨trivial, by simp⟩
+  | type len =>
+    obtain ⟨_, hc⟩ := parseU32_type_cases h
+    rcases hc with ⟨_, _, d1, hf, rfl⟩ | ⟨_, _, st, d1, ha, rfl⟩
+    · exact ⟨trivial, by simp⟩
+    · rcases afterType_cases ha with ⟨ht, _, _, rfl, rfl⟩ | ⟨ht, _, rfl, rfl⟩ | ⟨h1, h2, rfl, rfl⟩
+      · exact ⟨trivial, by simp⟩
+      · exact ⟨Or.inl rfl, by simp⟩
+      · by_cases hl : len = 0
+        · simp only [hl, if_true]; exact ⟨⟨h2, h1⟩, by simp⟩
+        · simp only [hl, if_false]; exact ⟨⟨hl, h2, h1⟩, by simp⟩
+  | crc t =>
+    rw [parseU32_crc] at h
+    repeat' split at h
+    all_goals first
+      | (cases h; done)
+      | (cases h; exact ⟨trivial, by simp⟩)
+      | (cases h; exact ⟨by simp only [StInv, hd], by simp [hd]⟩)
+  | seqNo =>
+    rw [parseU32_seqNo] at h
+    repeat' split at h
+    all_goals first | (cases h; done) | (cases h; exact ⟨Or.inr rfl, by simp⟩)
+
+/-- a `U32` step enters a CRC field only by continuing to accumulate one -/
+theorem stepU32_stInv {cfg : Cfg} {d d' : Dec} {kind : U32Kind} {acc buf : Bytes} {n : Nat} {ev : Ev}
+    (hd : d.state = none) (h : stepU32 cfg d kind acc buf = .ok (n, ev, d')) :
+    StInv d' ∧ ∀ t acc', d'.state = some (.u32 (.crc t) acc') → kind = .crc t := by
+  unfold stepU32 at h
+  split at h
+  · obtain ⟨_, _, _, _, _, _, _, hp⟩ := parse4_ok h
+    have := parseU32_stInv hd hp
+    exact ⟨this.1, fun t acc' hx => absurd hx (this.2 t acc')⟩
+  · simp only at h
+    split at h
+    · cases h
+      refine ⟨trivial, fun t acc' hx => ?_⟩
+      simp only [Option.some.injEq, St.u32.injEq] at hx
+      exact hx.1
+    · obtain ⟨_, _, _, _, _, _, _, hp⟩ := parse4_ok h
+      have := parseU32_stInv hd hp
+      exact ⟨this.1, fun t acc' hx => absurd hx (this.2 t acc')⟩
+
+/-- **Collecting the body**: a `ReadChunkData` step with something remaining reports nothing, consumes `n` bytes of the
+    body and appends exactly these to `raw_bytes`; it continues with `ReadChunkData` while something remains (or with
+    `ParseChunkData` to grow a full buffer) and with `ParseChunkData` when the body is complete -/
+theorem stepRead_collect {d d' : Dec} {t : ChunkType} {buf : Bytes} {n : Nat} {ev : Ev}
+    (hrem : d.remaining ≠ 0) (h : stepRead d t buf = .ok (n, ev, d')) :
+    ev = .nothing ∧ n ≤ d.remaining ∧ d'.raw = d.raw ++ buf.take n ∧ d'.remaining = d.remaining - n ∧
+    ((d'.state = some (.readChunkData t) ∧ d'.remaining ≠ 0) ∨ d'.state = some (.parseChunkData t)) := by
+  unfold stepRead at h
+  rw [if_neg hrem] at h
+  simp only at h
+  split at h
+  · cases h; exact ⟨rfl, Nat.zero_le _, by simp, rfl, Or.inr rfl⟩
+  · cases h
+    refine ⟨rfl, Nat.min_le_left _ _, rfl, rfl, ?_⟩
+    generalize d.readPiece _ _ = dp
+    by_cases hr : dp.remaining = 0
+    · right; simp only [hr, if_true]
+    · left; simp only [hr, if_false]; exact ⟨trivial, hr⟩
+
+/-- `ParseChunkData` with something remaining only grows the chunk buffer and goes back to collecting -/
+theorem stepParse_grow {cfg : Cfg} {d d' : Dec} {t : ChunkType} {n : Nat} {ev : Ev}
+    (hrem : d.remaining ≠ 0) (h : stepParse cfg d t = .ok (n, ev, d')) :
+    n = 0 ∧ ev = .partialChunk t ∧ d'.raw = d.raw ∧ d'.remaining = d.remaining ∧ d'.info = d.info ∧
+    d'.state = some (.readChunkData t) := by
+  unfold stepParse at h
+  rw [if_neg hrem] at h
+  cases hp : reserveCurrentChunk d with
+  | error e => rw [hp] at h; cases h
+  | ok d1 =>
+    rw [hp] at h
+    simp only [Except.map] at h
+    cases h
+    obtain ⟨r, _, _, rfl, _⟩ := reserveCurrentChunk_shape hp
+    exact ⟨rfl, rfl, rfl, rfl, rfl, rfl⟩
+
+/-- **The parse**: `ParseChunkData` with nothing remaining IS `parse_chunk` on the collected body; it consumes nothing and
+    leaves the machine at the CRC field -/
+theorem stepParse_parse {cfg : Cfg} {d d' : Dec} {t : ChunkType} {n : Nat} {ev : Ev}
+    (hrem : d.remaining = 0) (h : stepParse cfg d t = .ok (n, ev, d')) :
+    n = 0 ∧ parseChunk cfg d t = .ok (ev, d') ∧ d'.state = some (.u32 (.crc t) []) ∧ d'.raw = d.raw := by
+  unfold stepParse at h
+  rw [if_pos hrem] at h
+  cases hp : parseChunk cfg d t with
+  | error e => rw [hp] at h; cases h
+  | ok r =>
+    rw [hp] at h; obtain ⟨ev1, d1⟩ := r
+    simp only [Except.map] at h
+    cases h
+    exact ⟨rfl, rfl, (parseChunk_ok hp).1, (parseChunk_frame hp).raw⟩
+
+theorem nextState_stInv {cfg : Cfg} {d d' : Dec} {st : St} {buf : Bytes} {n : Nat} {ev : Ev}
+    (hs : d.state = some st) (hinv : StInv d) (h : nextState cfg d st buf = .ok (n, ev, d')) : StInv d' := by
+  unfold nextState at h
+  simp only at h
+  cases st with
+  | u32 kind acc => exact (stepU32_stInv (d := { d with state := none }) rfl h).1
+  | parseChunkData t =>
+    have hi : t ≠ IDAT ∧ t ≠ fdAT := by simpa only [StInv, hs] using hinv
+    by_cases hrem : d.remaining = 0
+    · have := (stepParse_parse (d := { d with state := none }) hrem h).2.2.1
+      simp only [StInv, this]
+    · have := (stepParse_grow (d := { d with state := none }) hrem h)
+      simp only [StInv, this.2.2.2.2.2, this.2.2.2.1]
+      exact ⟨hrem, hi⟩
+  | readChunkData t =>
+    have hi : d.remaining ≠ 0 ∧ t ≠ IDAT ∧ t ≠ fdAT := by simpa only [StInv, hs] using hinv
+    obtain ⟨_, _, _, _, hst⟩ := stepRead_collect (d := { d with state := none }) hi.1 h
+    rcases hst with ⟨h1, h2⟩ | h1
+    · simp only [StInv, h1]; exact ⟨h2, hi.2⟩
+    · simp only [StInv, h1]; exact hi.2
+  | imageData t =>
+    have hi : t = IDAT ∨ t = fdAT := by simpa only [StInv, hs] using hinv
+    unfold stepImage at h
+    simp only at h
+    split at h
+    · cases h
+    · cases h
+      generalize Dec.imagePiece _ _ _ _ = dp
+      by_cases hr : dp.remaining = 0
+      · simp only [StInv, hr, if_true]
+      · simp only [StInv, hr, if_false]; exact hi
+
+theorem run_stInv (cfg : Cfg) : ∀ (f : Nat) (d : Dec) (buf : Bytes), StInv d → StInv (run cfg f d buf).1 := by
+  intro f
+  induction f with
+  | zero => intro d buf h; exact h
+  | succ f ih =>
+    intro d buf hinv
+    unfold run
+    split
+    · exact hinv
+    · split
+      · exact hinv
+      · rename_i st hs
+        split
+        · trivial
+        · rename_i n ev d' hn
+          exact ih d' _ (nextState_stInv hs hinv hn)
+
+/-- **Every buffered chunk reaches its CRC field only through `parse_chunk`**: a `next_state` call (decoder satisfying
+    `StInv`) after which the machine is in the CRC field of a non-data chunk `t` either was in that field already, or
+    is the parse step: `ParseChunkData(t)` with the whole body collected (`remaining = 0`), `parse_chunk` returned
+    `Ok` — for EVERY length, 0 included — and nothing was consumed -/
+theorem crc_entered_by_parse {cfg : Cfg} {d d' : Dec} {st : St} {buf : Bytes} {n : Nat} {ev : Ev} {t : ChunkType}
+    {acc' : Bytes} (hs : d.state = some st) (hinv : StInv d) (h : nextState cfg d st buf = .ok (n, ev, d'))
+    (hcrc : d'.state = some (.u32 (.crc t) acc')) (h1 : t ≠ IDAT) (h2 : t ≠ fdAT) :
+    (∃ acc, st = .u32 (.crc t) acc) ∨
+    (st = .parseChunkData t ∧ d.remaining = 0 ∧ n = 0 ∧ acc' = [] ∧ d'.raw = d.raw ∧
+      parseChunk cfg { d with state := none } t = .ok (ev, d')) := by
+  unfold nextState at h
+  simp only at h
+  cases st with
+  | u32 kind acc =>
+    have := (stepU32_stInv (d := { d with state := none }) rfl h).2 t acc' hcrc
+    exact Or.inl ⟨acc, by rw [this]⟩
+  | parseChunkData t' =>
+    right
+    by_cases hrem : d.remaining = 0
+    · obtain ⟨hn, hp, hst, hraw⟩ := stepParse_parse (d := { d with state := none }) hrem h
+      rw [hst] at hcrc
+      simp only [Option.some.injEq, St.u32.injEq, U32Kind.crc.injEq] at hcrc
+      obtain ⟨rfl, rfl⟩ := hcrc
+      exact ⟨rfl, hrem, hn, rfl, hraw, hp⟩
+    · have := (stepParse_grow (d := { d with state := none }) hrem h).2.2.2.2.2
+      rw [this] at hcrc; cases hcrc
+  | readChunkData t' =>
+    have hi : d.remaining ≠ 0 ∧ t' ≠ IDAT ∧ t' ≠ fdAT := by simpa only [StInv, hs] using hinv
+    obtain ⟨_, _, _, _, hst⟩ := stepRead_collect (d := { d with state := none }) hi.1 h
+    rcases hst with ⟨h1, _⟩ | h1 <;> (rw [h1] at hcrc; cases hcrc)
+  | imageData t' =>
+    have hi : t' = IDAT ∨ t' = fdAT := by simpa only [StInv, hs] using hinv
+    exfalso
+    unfold stepImage at h
+    simp only at h
+    split at h
+    · cases h
+    · cases h
+      revert hcrc
+      generalize Dec.imagePiece _ _ _ _ = dp
+      by_cases hr : dp.remaining = 0
+      · simp only [hr, if_true, Option.some.injEq, St.u32.injEq, U32Kind.crc.injEq]
+        rintro ⟨rfl, _⟩
+        rcases hi with hi | hi
+        · exact h1 hi
+        · exact h2 hi
+      · simp only [hr, if_false]; intro hx; cases hx
+
+/-- **… and leaves it for the next chunk**: from the CRC field the machine continues in the same field, or moves on to
+    the next length field (`ChunkComplete`, or a skipped mismatch), or finishes (`ImageEnd`) — never back to
+    `ParseChunkData`: the chunk is parsed exactly once -/
+theorem crc_step_leaves_chunk {cfg : Cfg} {d d' : Dec} {t : ChunkType} {acc buf : Bytes} {n : Nat} {ev : Ev}
+    (h : nextState cfg d (.u32 (.crc t) acc) buf = .ok (n, ev, d')) :
+    (∃ acc', d'.state = some (.u32 (.crc t) acc') ∧ ev = .nothing) ∨
+    (d'.state = some (.u32 .length []) ∧ (ev = .nothing ∨ ∃ c, ev = .chunkComplete c t)) ∨
+    (d'.state = none ∧ ev = .imageEnd ∧ t = IEND) := by
+  unfold nextState at h
+  simp only at h
+  have key : ∀ {b0 b1 b2 b3}, parseU32 cfg { d with state := none } (.crc t) b0 b1 b2 b3 = .ok (ev, d') →
+      (d'.state = some (.u32 .length []) ∧ (ev = .nothing ∨ ∃ c, ev = .chunkComplete c t)) ∨
+      (d'.state = none ∧ ev = .imageEnd ∧ t = IEND) := by
+    intro b0 b1 b2 b3 hp
+    rw [parseU32_crc] at hp
+    repeat' split at hp
+    all_goals first
+      | (cases hp; done)
+      | (cases hp; exact Or.inr ⟨rfl, rfl, by assumption⟩)
+      | (cases hp; exact Or.inl ⟨rfl, Or.inr ⟨_, rfl⟩⟩)
+      | (cases hp; exact Or.inl ⟨rfl, Or.inl rfl⟩)
+  unfold stepU32 at h
+  split at h
+  · obtain ⟨_, _, _, _, _, _, _, hp⟩ := parse4_ok h
+    exact Or.inr (key hp)
+  · simp only at h
+    split at h
+    · cases h; exact Or.inl ⟨_, rfl, rfl⟩
+    · obtain ⟨_, _, _, _, _, _, _, hp⟩ := parse4_ok h
+      exact Or.inr (key hp)
+
+
+/-- the events a chunk parser can report -/
+def ParserEv : Ev → Prop
+  | .nothing | .header .. | .pixelDimensions .. | .animationControl .. | .frameControl _ | .partialChunk _ => True
+  | _ => False
+
+macro "parser_ev" h:ident : tactic => `(tactic| (
+  simp only [bind, Except.bind, eofOr, pure, Except.pure, throw, throwThe, MonadExceptOf.throw, withInfo] at $h:ident
+  repeat' split at $h:ident
+  all_goals first
+    | (cases $h:ident; done)
+    | (cases $h:ident; trivial)))
+
+theorem parseIhdr_ev {d d' : Dec} {ev : Ev} (h : parseIhdr d = .ok (d', ev)) : ParserEv ev := by
+  unfold parseIhdr at h; parser_ev h
+theorem parseSbit_ev {d d' : Dec} {ev : Ev} (h : parseSbit d = .ok (d', ev)) : ParserEv ev := by
+  unfold parseSbit at h; parser_ev h
+theorem parsePlte_ev {d d' : Dec} {ev : Ev} (h : parsePlte d = .ok (d', ev)) : ParserEv ev := by
+  unfold parsePlte at h; parser_ev h
+theorem parseTrns_ev {d d' : Dec} {ev : Ev} (h : parseTrns d = .ok (d', ev)) : ParserEv ev := by
+  unfold parseTrns at h; parser_ev h
+theorem parsePhys_ev {d d' : Dec} {ev : Ev} (h : parsePhys d = .ok (d', ev)) : ParserEv ev := by
+  unfold parsePhys at h; parser_ev h
+theorem parseGama_ev {d d' : Dec} {ev : Ev} (h : parseGama d = .ok (d', ev)) : ParserEv ev := by
+  unfold parseGama at h; parser_ev h
+theorem parseActl_ev {d d' : Dec} {ev : Ev} (h : parseActl d = .ok (d', ev)) : ParserEv ev := by
+  unfold parseActl at h; parser_ev h
+theorem parseFctl_ev {d d' : Dec} {ev : Ev} (h : parseFctl d = .ok (d', ev)) : ParserEv ev := by
+  unfold parseFctl at h; parser_ev h
+theorem parseChrm_ev {d d' : Dec} {ev : Ev} (h : parseChrm d = .ok (d', ev)) : ParserEv ev := by
+  unfold parseChrm at h; parser_ev h
+theorem parseSrgb_ev {d d' : Dec} {ev : Ev} (h : parseSrgb d = .ok (d', ev)) : ParserEv ev := by
+  unfold parseSrgb at h; parser_ev h
+theorem parseCicp_ev {d d' : Dec} {ev : Ev} (h : parseCicp d = .ok (d', ev)) : ParserEv ev := by
+  unfold parseCicp at h; parser_ev h
+theorem parseMdcv_ev {d d' : Dec} {ev : Ev} (h : parseMdcv d = .ok (d', ev)) : ParserEv ev := by
+  unfold parseMdcv at h; parser_ev h
+theorem parseClli_ev {d d' : Dec} {ev : Ev} (h : parseClli d = .ok (d', ev)) : ParserEv ev := by
+  unfold parseClli at h; parser_ev h
+theorem parseExif_ev {d d' : Dec} {ev : Ev} (h : parseExif d = .ok (d', ev)) : ParserEv ev := by
+  unfold parseExif at h; parser_ev h
+theorem parseBkgd_ev {d d' : Dec} {ev : Ev} (h : parseBkgd d = .ok (d', ev)) : ParserEv ev := by
+  unfold parseBkgd at h; parser_ev h
+theorem parseText_ev {d d' : Dec} {ev : Ev} (h : parseText d = .ok (d', ev)) : ParserEv ev := by
+  unfold parseText at h; parser_ev h
+theorem parseZtxt_ev {d d' : Dec} {ev : Ev} (h : parseZtxt d = .ok (d', ev)) : ParserEv ev := by
+  unfold parseZtxt at h; parser_ev h
+theorem parseItxt_ev {cfg : Cfg} {d d' : Dec} {ev : Ev} (h : parseItxt cfg d = .ok (d', ev)) : ParserEv ev := by
+  unfold parseItxt at h; parser_ev h
+theorem parseIccp_ev {cfg : Cfg} {d d' : Dec} {ev : Ev} (h : parseIccp cfg d = .ok (d', ev)) : ParserEv ev := by
+  unfold parseIccp at h
+  simp only at h
+  repeat' split at h
+  all_goals first | (cases h; done) | (cases h; trivial)
+
+local macro "dev" h:ident c:term "," l:term : tactic =>
+  `(tactic| (by_cases hc : $c; (· rw [if_pos hc] at $h:ident; exact $l $h:ident); rw [if_neg hc] at $h:ident))
+
+theorem dispatch_ev {cfg : Cfg} {d d' : Dec} {t : ChunkType} {ev : Ev} (h : dispatch cfg d t = .ok (d', ev)) :
+    ParserEv ev := by
+  unfold dispatch at h
+  dev h (t = IHDR), parseIhdr_ev
+  dev h (t = sBIT), parseSbit_ev
+  dev h (t = PLTE), parsePlte_ev
+  dev h (t = tRNS), parseTrns_ev
+  dev h (t = pHYs), parsePhys_ev
+  dev h (t = gAMA), parseGama_ev
+  dev h (t = acTL), parseActl_ev
+  dev h (t = fcTL), parseFctl_ev
+  dev h (t = cHRM), parseChrm_ev
+  dev h (t = sRGB), parseSrgb_ev
+  dev h (t = cICP), parseCicp_ev
+  dev h (t = mDCV), parseMdcv_ev
+  dev h (t = cLLI), parseClli_ev
+  dev h (t = eXIf), parseExif_ev
+  dev h (t = bKGD), parseBkgd_ev
+  dev h (t = iCCP ∧ (!d.opts.ignoreIccp) = true), parseIccp_ev
+  dev h (t = tEXt ∧ (!d.opts.ignoreText) = true), parseText_ev
+  dev h (t = zTXt ∧ (!d.opts.ignoreText) = true), parseZtxt_ev
+  dev h (t = iTXt ∧ (!d.opts.ignoreText) = true), parseItxt_ev
+  cases h; trivial
+
+theorem parseChunk_ev {cfg : Cfg} {d d' : Dec} {t : ChunkType} {ev : Ev} (h : parseChunk cfg d t = .ok (ev, d')) :
+    ParserEv ev := by
+  rcases parseChunk_cases h with h | ⟨e, _, _, _, rfl, _⟩
+  · exact dispatch_ev h
+  · trivial
+
+theorem parseU32_chunkComplete {cfg : Cfg} {d d' : Dec} {kind : U32Kind} {b0 b1 b2 b3 : UInt8} {c : Nat} {t : ChunkType}
+    (hp : parseU32 cfg d kind b0 b1 b2 b3 = .ok (.chunkComplete c t, d')) : kind = .crc t := by
+  cases kind with
+  | sig1 => rw [parseU32_sig1] at hp; split at hp <;> cases hp
+  | sig2 => rw [parseU32_sig2] at hp; split at hp <;> cases hp
+  | length => rw [parseU32_length] at hp; cases hp
+  | type len =>
+    obtain ⟨_, hc⟩ := parseU32_type_cases hp
+    rcases hc with ⟨_, hev, _⟩ | ⟨_, hev, _⟩ <;> cases hev
+  | crc t' =>
+    rw [parseU32_crc] at hp
+    repeat' split at hp
+    all_goals first | (cases hp; done) | (cases hp; rfl)
+  | seqNo =>
+    rw [parseU32_seqNo] at hp
+    repeat' split at hp
+    all_goals (cases hp)
+
+theorem stepU32_chunkComplete {cfg : Cfg} {d d' : Dec} {kind : U32Kind} {acc buf : Bytes} {n c : Nat} {t : ChunkType}
+    (h : stepU32 cfg d kind acc buf = .ok (n, .chunkComplete c t, d')) : kind = .crc t := by
+  unfold stepU32 at h
+  split at h
+  · obtain ⟨_, _, _, _, _, _, _, hp⟩ := parse4_ok h
+    exact parseU32_chunkComplete hp
+  · simp only at h
+    split at h
+    · cases h
+    · obtain ⟨_, _, _, _, _, _, _, hp⟩ := parse4_ok h
+      exact parseU32_chunkComplete hp
+
+theorem stepParse_ev {cfg : Cfg} {d d' : Dec} {t : ChunkType} {n : Nat} {ev : Ev}
+    (h : stepParse cfg d t = .ok (n, ev, d')) : ParserEv ev := by
+  unfold stepParse at h
+  split at h
+  · cases hp : parseChunk cfg d t with
+    | error e => rw [hp] at h; cases h
+    | ok r =>
+      rw [hp] at h; obtain ⟨ev1, d1⟩ := r
+      simp only [Except.map] at h
+      cases h
+      exact parseChunk_ev hp
+  · cases hp : reserveCurrentChunk d with
+    | error e => rw [hp] at h; cases h
+    | ok d1 => rw [hp] at h; simp only [Except.map] at h; cases h; trivial
+
+/-- **`ChunkComplete(crc, t)` is reported by the CRC step of chunk `t` and by nothing else** -/
+theorem chunkComplete_only_at_crc {cfg : Cfg} {d d' : Dec} {st : St} {buf : Bytes} {n : Nat} {c : Nat} {t : ChunkType}
+    (h : nextState cfg d st buf = .ok (n, .chunkComplete c t, d')) : ∃ acc, st = .u32 (.crc t) acc := by
+  unfold nextState at h
+  cases st with
+  | u32 kind acc => exact ⟨acc, by rw [stepU32_chunkComplete h]⟩
+  | parseChunkData t' => exact absurd (stepParse_ev h) (fun hx => hx)
+  | readChunkData t' =>
+    exfalso
+    simp only at h
+    unfold stepRead at h
+    split at h
+    · cases h
+    · simp only at h
+      split at h <;> cases h
+  | imageData t' =>
+    exfalso
+    simp only at h
+    unfold stepImage at h
+    simp only at h
+    split at h <;> cases h
 
 
 end Png.Framing
